@@ -654,13 +654,19 @@ func parentMain(p Property, env *Env) int {
 	return 0
 }
 
-// WriteReplay stores a case under evidence/replays and returns its path.
-func WriteReplay(env *Env, c Case) string {
+// ReplayDir is where replay files of this invocation go.
+func ReplayDir(env *Env) string {
 	dir := filepath.Join(env.VerifDir, "evidence", "replays")
 	if *flagEvidence != "" {
 		dir = filepath.Join(filepath.Dir(*flagEvidence), "replays")
 	}
 	os.MkdirAll(dir, 0o755)
+	return dir
+}
+
+// WriteReplay stores a case under evidence/replays and returns its path.
+func WriteReplay(env *Env, c Case) string {
+	dir := ReplayDir(env)
 	path := filepath.Join(dir, fmt.Sprintf("%s-%d-%d.json", c.Property, c.BaseSeed, c.Index))
 	b, _ := json.MarshalIndent(c, "", " ")
 	if err := os.WriteFile(path, append(b, '\n'), 0o644); err != nil {
